@@ -140,6 +140,18 @@ def runner(rep, tier, seed, replay):
     rep.add_tlc(rl)
     if not rl.violation or "ExecFds" not in rl.violation:
         raise ToolError("negative control failed: closing a capture pipe only where it is dup2()ed satisfies ExecFds")
+    # a pipe that cannot be made after the pipeline's own pipes exist (capture pipes, here-string pipe of a later stage): the
+    # repaired code closes everything and waits for what already runs; core.rs as pinned returned with the pipes open - negative control
+    for cfg in ("MCPipeline_lateH", "MCPipeline_lateH2", "MCPipeline_lateC", "MCPipeline_lateC2"):
+        rt = run_tlc("MCPipeline", cfg, timeout=3000, coverage=False)
+        if rt.violation:
+            raise ToolError("Pipeline model (late pipe failure, %s) violates a descriptor invariant:\n%s" % (cfg, rt.violation[:2000]))
+        rep.add_tlc(rt)
+    for cfg in ("MCPipeline_lateH_leak", "MCPipeline_lateC_leak"):
+        rk = run_tlc("MCPipeline", cfg, coverage=False)
+        rep.add_tlc(rk)
+        if not rk.violation or "ShellFdsRestored" not in rk.violation:
+            raise ToolError("negative control failed: returning with the pipeline's pipes open (%s) satisfies ShellFdsRestored" % cfg)
     nsess = 14 if tier == "quick" else 300
     scripts = [gen_session(random.Random(rnd.randrange(1 << 30)), rnd.randint(1, 30)) for _ in range(nsess)]
     # fault enumeration: every RLIMIT_NOFILE value before a pipeline
